@@ -76,7 +76,7 @@ fn txt(s: &str) -> Node {
     Node::Text(s.to_string())
 }
 
-fn oracle(c: &Prog, obs: &mut Obs) -> Check {
+pub fn oracle(c: &Prog, obs: &mut Obs) -> Check {
     obs.nt(&(print(&c.nodes), c.data.dump()));
     differential(&c.nodes, &c.data, &[], obs, "conditional")
 }
@@ -271,4 +271,17 @@ pub fn run(ctx: &Ctx) {
     ctx.cases("shadowed_member_truthiness", shadowed_cases(), oracle);
     ctx.random("nested", ctx.pick(300_000, 10_000_000), rand_strategy, oracle);
     let _ = gen::stress_scalars;
+}
+
+/// Byte-driven twin of `rand_strategy` (engine E6b, see astdec.rs).
+pub fn fuzz_case(d: &mut crate::astdec::Dec) -> Prog {
+    let pool = pool();
+    let (x, y, z, i) = (d.pick(&pool), d.pick(&pool), d.pick(&pool), d.pick(&pool));
+    let defined_z = d.flag();
+    let nodes = d.nodes(&rand_cfg(), 4);
+    let mut items = vec![("x", x), ("y", y), ("i", i)];
+    if defined_z {
+        items.push(("z", z));
+    }
+    Prog { nodes, data: obj(items) }
 }
